@@ -59,6 +59,7 @@ const (
 	dBytesRange    = 17
 	dDecryptFrame  = 18
 	dJSONRegs      = 19
+	dParseACMAfter = 21 // tools.ParseACM; the model gets Header.GetModuleSubType(), UserArea and the serialised module from dACMSplit
 	dLocalFiles    = 20 // tpmdetection.local with a missing device / capability file (aux[0]: bit 0 device missing, bit 1 caps missing)
 
 	dParseACM     = 101
@@ -80,7 +81,7 @@ var decoderNames = map[int]string{
 	dLocalCaps: "tpmdetection.local", dBytesRange: "check.BytesRange", dDecryptFrame: "bootguard.DecryptPrivKey",
 	dJSONRegs: "registers.Registers.UnmarshalJSON", dParseACM: "tools.ParseACM", dYAMLRegs: "registers.Registers.UnmarshalYAML",
 	dRegistersNew: "registers.New", dIFD: "tools.CalcImageOffset/GetRegion", dEventLog: "tpmeventlog.Parse",
-	dLocalFiles: "tpmdetection.local(files)", dReadPubKey: "bootguard.ReadPubKey", dIFDParts: "tools.GetRegion/CalcImageOffset(parts)",
+	dLocalFiles: "tpmdetection.local(files)", dReadPubKey: "bootguard.ReadPubKey", dIFDParts: "tools.GetRegion/CalcImageOffset(parts)", dParseACMAfter: "tools.ParseACM(after fiano)",
 }
 
 type request struct {
@@ -358,9 +359,10 @@ func call(req request, rep *reply) (run func() (func(*zs), error), skip bool) {
 		}, false
 	case dACMSplit:
 		hdr, err := fit.ParseSACMData(bytes.NewReader(in1))
-		if err != nil || hdr == nil || (hdr.GetModuleSubType()&tools.ACMModuleSubtypeAncModule) > 0 {
+		if err != nil || hdr == nil || ((hdr.GetModuleSubType()&tools.ACMModuleSubtypeAncModule) > 0 && aux(0) == 0) {
 			return nil, true
 		}
+		rep.Msg = strconv.Itoa(int(hdr.GetModuleSubType()))
 		sz := hdr.GetSize().Size()
 		if sz > 1<<20 {
 			return nil, true
@@ -388,7 +390,33 @@ func call(req request, rep *reply) (run func() (func(*zs), error), skip bool) {
 		acm := &tools.ACM{Header: hdr}
 		return func() (func(*zs), error) {
 			err := acm.ParseACMInfo()
+			if aux(0) == 1 {
+				// the same object again: the second call must give what a call on a new object gives
+				err = acm.ParseACMInfo()
+			}
 			return func(z *zs) {
+				z.u(uint64(acm.Info.ChipsetIDList), uint64(acm.Info.ProcessorIDList), uint64(acm.Info.TPMInfoList), uint64(acm.Chipsets.Count))
+				var b bytes.Buffer
+				_ = binary.Write(&b, binary.LittleEndian, acm.Chipsets.IDList)
+				z.bs(b.Bytes())
+				z.u(uint64(acm.Processors.Count))
+				b.Reset()
+				_ = binary.Write(&b, binary.LittleEndian, acm.Processors.IDList)
+				z.bs(b.Bytes())
+				z.u(uint64(acm.TPMs.Capabilities), uint64(acm.TPMs.Count))
+				b.Reset()
+				_ = binary.Write(&b, binary.LittleEndian, acm.TPMs.AlgID)
+				z.bs(b.Bytes())
+			}, err
+		}, false
+	case dParseACMAfter:
+		return func() (func(*zs), error) {
+			acm, err := tools.ParseACM(bytes.NewReader(in1))
+			return func(z *zs) {
+				if acm.Header != nil && (acm.Header.GetModuleSubType()&tools.ACMModuleSubtypeAncModule) > 0 && acm.Chipsets.IDList == nil && acm.Processors.IDList == nil && acm.TPMs.AlgID == nil {
+					z.u(7777) // returned without info tables
+					return
+				}
 				z.u(uint64(acm.Info.ChipsetIDList), uint64(acm.Info.ProcessorIDList), uint64(acm.Info.TPMInfoList), uint64(acm.Chipsets.Count))
 				var b bytes.Buffer
 				_ = binary.Write(&b, binary.LittleEndian, acm.Chipsets.IDList)
